@@ -735,6 +735,16 @@ func (in *Inst) applyContract(con *Contract, args []Val, sig *types.Signature, r
 			st.set("Mem", nm)
 		}
 	}
+	// scratch ghosts: a repository function whose contract never mentions one is free to change it (its own
+	// frame check is skipped for that ghost), so the caller forgets the value
+	if con.Kind == "func" && !con.Trusted {
+		names := e.W.ghostNamesOf(con)
+		for gname, g := range e.W.ghosts {
+			if _, reg := e.sorts["g:"+gname]; g.Scratch && reg && !names[gname] {
+				st.set("g:"+gname, e.freshConst("g:"+gname, g.Sort))
+			}
+		}
+	}
 	// results
 	res := sig.Results()
 	var rs []Val
@@ -752,6 +762,9 @@ func (in *Inst) applyContract(con *Contract, args []Val, sig *types.Signature, r
 		}
 	}
 	for _, en := range con.Ensures {
+		if e.W.otherProp(en.Prop) {
+			continue // proved in that property's run; not needed (and not assumed) here
+		}
 		t := in.specBool(en.Expr, post)
 		e.assume(st.reach, t)
 	}
